@@ -37,11 +37,15 @@ theorem mgrvalidateUndropDatabaseIfs : Gen.Undrop.mgrvalidateUndropDatabaseIfs =
 theorem mgrprepareToMoveDroppedDatabaseCalls : Gen.Undrop.mgrprepareToMoveDroppedDatabaseCalls = ["dd.fs.Exists(targetPath)", "fmt.Sprintf(\"%s.backup.%d\", targetPath, time.Now().UnixMilli())", "dd.fs.Exists(newPath)", "dd.fs.MoveDir(targetPath, newPath)"] := rfl
 theorem mgrprepareToMoveDroppedDatabaseGuards : Gen.Undrop.mgrprepareToMoveDroppedDatabaseGuards = [] := rfl
 theorem mgrprepareToMoveDroppedDatabaseIfs : Gen.Undrop.mgrprepareToMoveDroppedDatabaseIfs = ["!exists", "exists", "err != nil"] := rfl
-theorem hasCaseInsensitiveMatchIfs : Gen.Undrop.hasCaseInsensitiveMatchIfs = ["strings.EqualFold(target, s)"] := rfl
+/-- `Undrop.firstFoldMatch`: exact name first (`s == target`), then the first `EqualFold` match -/
+theorem hasCaseInsensitiveMatchIfs : Gen.Undrop.hasCaseInsensitiveMatchIfs = ["s == target", "strings.EqualFold(target, s)"] := rfl
+/-- the exact-match loop returns immediately -/
+theorem hasCaseInsensitiveMatchReturns : Gen.Undrop.hasCaseInsensitiveMatchReturns = ["true, s", "found, exactCaseName"] := rfl
 theorem hasCaseInsensitiveMatchCalls : Gen.Undrop.hasCaseInsensitiveMatchCalls = ["strings.EqualFold(target, s)"] := rfl
 /-- `Undrop.firstFoldMatch`: the first match wins (`break`) -/
 theorem hasCaseInsensitiveMatchBreaks : Gen.Undrop.hasCaseInsensitiveMatchBreaks = 1 := by decide
 theorem hasCaseInsensitivePathIfs : Gen.Undrop.hasCaseInsensitivePathIfs = ["strings.EqualFold(filepath.Base(path), filepath.Base(target))", "err != nil"] := rfl
+theorem hasCaseInsensitivePathReturns : Gen.Undrop.hasCaseInsensitivePathReturns = ["found", "false, err", "found, nil"] := rfl
 theorem hasCaseInsensitivePathCalls : Gen.Undrop.hasCaseInsensitivePathCalls = ["fs.Iter(.. func ..)", "filepath.Dir(target)", "strings.EqualFold(filepath.Base(path), filepath.Base(target))", "filepath.Base(path)", "filepath.Base(target)"] := rfl
 theorem hasCaseInsensitivePathBreaks : Gen.Undrop.hasCaseInsensitivePathBreaks = 0 := by decide
 /-- `Undrop.dropDb`: unregistered before the manager moves the directory -/
